@@ -61,9 +61,9 @@ type c05Def struct {
 	names []string
 }
 
-func defsC05() []c05Def {
+func defsC05(maxSize int) []c05Def {
 	var out []c05Def
-	for size := 2; size <= 4; size++ {
+	for size := 2; size <= maxSize; size++ {
 		for _, names := range subsets(c05Pool, size) {
 			for _, part := range setPartitions(size) {
 				for _, kind := range []ph.Kind{ph.Bool, ph.Str} {
@@ -151,7 +151,11 @@ func init() {
 		Assume: []string{"names outside the pool are not covered"},
 		Run: func(c *RunCtx) {
 			res := c.Res
-			defs := defsC05()
+			maxSize := 4
+			if c.Tier == "thorough" {
+				maxSize = 5
+			}
+			defs := defsC05(maxSize)
 			res.Bounds = map[string]any{"definitions": len(defs), "name_pool": c05Pool}
 			for {
 				u := c.claim()
